@@ -12,6 +12,7 @@ import itertools
 import json
 
 from mc import refpeg, gramgen, diff, impl
+from mc.core import watchdog as core_watchdog, CaseTimeout
 from mc.core import Unit
 from mc.props import c01
 
@@ -186,9 +187,12 @@ def check_grammar(g, L_, u, cap):
         u.fail([gtext, "kinds"], {"grammar": g, "cfg": {}, "input": None, "check": "kinds"}, sig="kinds",
                what="%s | rule kinds reference=%s implementation=%s" % (gtext.replace("\n", " "), kinds, ikinds))
     alpha = gramgen.alphabet(g, foreign=False)
+    accepted = []
     for t in gramgen.inputs(alpha, L_, cap):
         text = " ".join(t)
         r = diff.ref_outcome(interp, text)
+        if r[0] == "accept" and len(accepted) < 12:
+            accepted.append(text)
         kind, payload, model = impl.load(mm, text)
         i = (kind, payload)
         cid = [gtext, text]
@@ -216,6 +220,58 @@ def check_grammar(g, L_, u, cap):
                     if want != got:
                         u.fail(cid + ["isinstance", cls, rule], {"grammar": g, "cfg": {}, "input": text, "check": "isinstance"}, sig="isinstance %s" % want,
                                what="%s | input=%r | textx_isinstance(%s object, %s) reference=%s implementation=%s" % (gtext.replace("\n", " "), text, cls, rule, want, got))
+    if len(g) <= 3 and any(v == "abstract" for v in kinds.values()) and accepted:
+        check_user_classes(g, u, st, kinds, accepted)
+
+
+def check_user_classes(g, u, st, kinds, inputs):
+    """the same grammar with a user class for EVERY common and abstract rule (callable class provider): the class of each object and the
+    textx_isinstance table must be what they are with generated classes"""
+    from textx import metamodel_from_str, textx_isinstance
+
+    gtext = refpeg.to_text(g)
+    made = {}
+
+    def provider(name):
+        if kinds.get(name) in ("common", "abstract"):
+            made[name] = type(name, (), {"__init__": lambda self, **kw: self.__dict__.update(kw)})
+            return made[name]
+        return None
+    try:
+        with core_watchdog(20):
+            mmu = metamodel_from_str(gtext, classes=provider)
+    except CaseTimeout:
+        u.fail([gtext, "user-classes", "compile"], {"grammar": g, "cfg": {}, "input": None, "check": "user-classes"}, sig="user classes compile hang",
+               what="%s with a user class for every rule: no meta-model within 20 s CPU" % gtext.replace("\n", " "))
+        return
+    except Exception as e:
+        u.fail([gtext, "user-classes", "compile"], {"grammar": g, "cfg": {}, "input": None, "check": "user-classes"}, sig="user classes compile",
+               what="%s with a user class for every rule: %s: %s" % (gtext.replace("\n", " "), type(e).__name__, str(e)[:120]))
+        return
+    for text in inputs:
+        kind, payload, model = impl.load(mmu, text)
+        u.case([gtext, "user-classes", text], nontrivial=True)
+        if kind != "accept":
+            u.fail([gtext, "user-classes", text], {"grammar": g, "cfg": {}, "input": text, "check": "user-classes"}, sig="user classes reject",
+                   what="%s | input=%r accepted with generated classes, with user classes: %s %s" % (gtext.replace("\n", " "), text, kind, str(payload)[:100]))
+            continue
+        for o in objects(model, []):
+            cls = type(o).__name__
+            if type(o) is not made.get(cls):
+                u.fail([gtext, "user-classes", text, "class"], {"grammar": g, "cfg": {}, "input": text, "check": "user-classes"}, sig="user classes: object class",
+                       what="%s | input=%r | object of class %r is not an instance of the supplied user class" % (gtext.replace("\n", " "), text, cls))
+                continue
+            for rule in kinds:
+                want = conforms(st, cls, rule)
+                try:
+                    got = bool(textx_isinstance(o, mmu[rule]))
+                except Exception as e:
+                    got = "%s: %s" % (type(e).__name__, e)
+                u.count("isinstance checks (user classes)")
+                if want != got:
+                    u.fail([gtext, "user-classes", text, cls, rule], {"grammar": g, "cfg": {}, "input": text, "check": "user-classes"}, sig="user classes isinstance %s" % want,
+                           what="%s | user class for every rule | input=%r | textx_isinstance(%s object, %s) reference=%s implementation=%s" % (
+                               gtext.replace("\n", " "), text, cls, rule, want, got))
 
 
 def work(arg):
